@@ -410,6 +410,10 @@ def r4(ctx):
             return v.value is None or v.value == "."
         if isinstance(v, ast.IfExp):
             return _missing(v.body) and _missing(v.orelse)
+        if isinstance(v, ast.Name):
+            # a local that only ever holds one of the missing values (None, then "." for HP)
+            ds = [d_ for s_, d_ in util.assignments_to(w.node, v.id)]
+            return bool(ds) and all(isinstance(d_, ast.AST) and not isinstance(d_, ast.Name) and _missing(d_) for d_ in ds)
         return False
 
     ok = (None if not els else (len(els) == 1 and _missing(els[0].value)))
